@@ -83,8 +83,10 @@ func evalC09(w *fw.W, unit, aux string) {
 		}
 		if tail != "" {
 			// half of the length goes to the repeated unit, half to the repeated tail byte; a single closing byte for ">"
-			if tail == ">" {
-				s = alpha.Rep(opener, unit, "", n-1) + ">"
+			if tail == ">" || strings.HasPrefix(tail, "\x03") {
+				// one closing token at the very end
+				cl := strings.TrimPrefix(tail, "\x03")
+				s = alpha.Rep(opener, unit, "", n-len(cl)) + cl
 			} else {
 				s = alpha.Rep(opener, unit, "", n/2) + strings.Repeat(tail, n/2)
 			}
@@ -240,12 +242,19 @@ func init() {
 						for _, o := range []string{"", "<a ", "<a b='", "<!--", "<a href="} {
 							items = append(items, [2]string{u, "html|" + o})
 						}
+						for _, end := range []string{"-->", "]]>", "%>", "'>", "\">"} {
+							items = append(items, [2]string{u, "html|\x01\x03" + end})
+						}
 					}
 					for _, op := range []string{"{a ", "(", "[", "'", "\"", "`", "/*", "--", "#", "@", "$a$"} {
 						for _, mid := range []string{"1", "a", "1,", "a 1,", " "} {
 							for _, cl := range []string{"", "}", ")", "]", "'", "*/", "\n", ","} {
 								for _, o := range []string{"", "1 "} {
 									items = append(items, [2]string{op + mid + cl, "sql|" + o})
+								}
+								// the same run closed once, at the very end, by each closer (a rule that looks ahead for the closer)
+								for _, end := range []string{"1}", ")", "]", "'", "*/"} {
+									items = append(items, [2]string{op + mid + cl, "sql|\x01\x03" + end})
 								}
 							}
 						}
